@@ -58,6 +58,9 @@ WORLD = ('WORLD', '')
 SHAPE_METHODS = {'element_size', 'nelement', 'numel', 'size', 'dim', 'ndimension', 'is_contiguous'}
 # external methods whose result is a global, rank-independent description (A1)
 UNIFORM_METHODS = {'topology'}   # PipelineModule.topology(): the global pipe x data x model grid
+# rank-local observations of the environment are not uniform across ranks
+ENV_MODULES = {'os', 'time', 'random', 'socket', 'tempfile', 'glob', 'shutil', 'pathlib'}
+ENV_PURE = {'os.path.join', 'os.path.basename', 'os.path.dirname', 'os.path.splitext', 'os.path.normpath', 'os.sep'}
 SHAPE_ATTRS = {'shape', 'dtype', 'device', 'ndim'}
 MUTATORS = {'append', 'extend', 'add', 'update', 'insert', 'setdefault', '__setitem__'}
 
@@ -602,6 +605,9 @@ class SPMD:
             out = set()
             handled = False
             for t in ts:
+                if t.kind == 'ext' and isinstance(t.ref, str) and t.ref.split('.')[0] in ENV_MODULES and t.ref not in ENV_PURE:
+                    out.add('rank')     # file system / clock / randomness: rank-local observations
+                    handled = True
                 if t.kind == 'ext' and t.ref in (TD + 'get_rank',):
                     out.add('rank')
                     handled = True
